@@ -145,7 +145,7 @@ def ReqSt.setSpecial (s : ReqSt) (key value : Bytes) : Option ReqSt :=
         | some n => some { s with contentLength := n, clBytes := value, h := delAll s.h strTransferEncoding }
         | none => some s
       else if H1.ciEq strConnection key then
-        if value = strClose then some { s with connClose := true }
+        if H1.ciEq strClose value then some { s with connClose := true }   -- any letter case (9dcdbe5)
         else let s := s.resetConnClose; some { s with h := setArg s.h key value }
       else if H1.ciEq strCookie key then
         let s := s.collectCookies; some { s with cookies := parseRequestCookies s.cookies value }
@@ -304,7 +304,7 @@ def RespSt.setSpecial (s : RespSt) (key value : Bytes) : Option RespSt :=
         | none => some s
       else if H1.ciEq strContentEncoding key then some { s with contentEncoding := value }
       else if H1.ciEq strConnection key then
-        if value = strClose then some { s with connClose := true }
+        if H1.ciEq strClose value then some { s with connClose := true }   -- any letter case (9dcdbe5)
         else let s := s.resetConnClose; some { s with h := setArg s.h key value }
       else none
     else if d = 115 then
